@@ -119,7 +119,7 @@ def run(ctx):
             rd = d / f"r{i}"
             extra, target = setup_inputs(ws, rd, kind)
             scn = {"fork": fork, "multi": bool(i % 2), "prior": "absent", "shared": False, "wopt": "default",
-                   "mmapOut": True, "holder": "none", "faultAt": "none", "faultKind": "error", "reapable": True, "changeAt": instant}
+                   "mmapOut": True, "holder": "none", "faultAt": "none", "faultKind": "error", "symlink": False, "reapable": True, "changeAt": instant}
             obs = lc.run_scenario(ws, scn, rd, modify=modifier(target, mod), extra_args=extra)
             return (instant, kind, mod, fork), scn, obs, rd
 
